@@ -53,8 +53,8 @@ def countReports (os : List (Option Rep × Option Rep)) : Nat :=
 through `process_ipv4_packet` on one fresh flow table (no specification) -/
 def pkts (impl : String) : P Verdict := do
   let ps ← list pPkt
-  let os := run parsers [] ps
-  let left := (finalMap parsers [] ps).length
+  let os := runS parsers [] ps
+  let left := (finalMapS parsers [] ps).length
   pure (verdictOf impl (showRun ps os) none [] s!"pkts:r{countReports os}:left{if left > 2 then "3+" else toString left}")
 
 /-- `C09.conn <client ip> <server ip> <cport> <sport> <isnC> <isnS> <n> (<dir> <seq> <flags> <payload>)*`
@@ -64,7 +64,7 @@ def conn (impl : String) : P Verdict := do
   let ds ← list pData
   let c : Conn := ⟨⟨a, b, pa, pb⟩, ic, is'⟩
   let ps := c.packets ds
-  let os := run parsers [] ps
+  let os := runS parsers [] ps
   -- FIN on a data segment is part of the statement's domain (the sender's last segment carries it; the
   -- statement quantifies over every arrival order); RST / SYN among the data are not
   let specified := ds.all (fun d => !hasFlag d.flags RST && !hasFlag d.flags SYN) &&
